@@ -173,7 +173,8 @@ UpdateOut(a, d, n) ==
             WriteCasOut([a EXCEPT !.cas = d.cas, !.body = body, !.hasbody = hasbody, !.exp = e, !.opt = ""], d, n)
     IN
     CASE a.cb = "cancel" -> {Out(TRUE, {"ok"}, d, FALSE)}
-      [] a.cb = "set"    -> wc(a.body, TRUE, a.exp)
+      [] a.cb \in {"set", "retry"} -> wc(a.body, TRUE, a.exp)     \* "retry": the callback first asks to be called again
+      [] a.cb = "err"    -> Unch(d, {"other"})                      \* the callback fails: nothing is stored
       [] a.cb = "del"    -> IF HasBody(d) THEN wc(NoBody, FALSE, a.exp) ELSE Wild(d)
       [] a.cb = "setexp" -> IF HasBody(d) THEN wc(d.body, TRUE, "E2") ELSE Wild(d)
       [] a.cb = "inc"    -> IF HasBody(d) /\ d.body.k = "num" THEN wc(NumBody(d.body.n + 1), TRUE, a.exp)
